@@ -186,6 +186,17 @@ class CLI:
         else:
             self.parser.parse_args(['-h'])
 
+    def usage_error(self):
+        """
+        Show the help for the current command and return the error status
+        (argparse exits with status 0 after printing help)
+        """
+        try:
+            self.do_help()
+        except SystemExit:
+            pass
+        return 2
+
     def do_detect(self):
         self._args.cmd = 'detect'
         return self.detect_or_inspect(inspect=False)
@@ -223,8 +234,7 @@ class CLI:
                 mos_file_keys = [self._args.key]
             else:
                 sys.stderr.write("Prefix or file key must be provided with bucket name\n\n")
-                self.do_help()
-                return 2
+                return self.usage_error()
             for mos_file_key in mos_file_keys:
                 try:
                     mo = MosFile.from_s3(self._args.bucket_name, mos_file_key)
@@ -237,8 +247,7 @@ class CLI:
                     print()
         else:
             sys.stderr.write("Files or bucket name and prefix or key must be provided\n\n")
-            self.do_help()
-            return 2
+            return self.usage_error()
 
     def detect_file(self, mo, filename):
         if mo.completed:
@@ -270,8 +279,7 @@ class CLI:
                     )
             else:
                 sys.stderr.write("Files or bucket name and prefix must be provided\n\n")
-                self.do_help()
-                return 2
+                return self.usage_error()
         except InvalidMosCollection as e:
             sys.stderr.write(f"Error: {e}\n")
             return 2
